@@ -17,9 +17,10 @@ import ast
 from . import e2_formula as F
 from . import c11_consume as C
 from . import c11_fmt as T
+from . import c11_conc as K
 from .c11_consume import Stuck
 from .core import Unsupported
-from .e2_eval import is_unknown
+from .e2_eval import DictValue, is_unknown
 from .sem import place
 
 OP4, OP2 = T.OP4, T.OP2
@@ -49,6 +50,13 @@ def _walk(ctx, rel, cls, q, tag="", **kw):
             cache[k] = C.Walker(ctx, rel, cls, fn, **kw).run_function()
         except (Stuck, Unsupported) as e:
             cache[k] = e
+        except RecursionError:
+            cache[k] = Stuck("the walk does not end (recursion limit)")
+        except Exception as e:  # noqa  (a construct that trips the evaluator is one it cannot lower: an analysis error, never a crash of the rule)
+            import traceback
+            tb = traceback.extract_tb(e.__traceback__)
+            at = f"{tb[-1].filename.split('/')[-1]}:{tb[-1].lineno}" if tb else "?"
+            cache[k] = Stuck(f"the evaluator failed on this function ({type(e).__name__}: {e}, at {at})")
     else:
         ctx.src.func(rel, q)
     w = cache[k]
@@ -337,7 +345,7 @@ def _tested_counter(lp):
 
 
 def _rat(v):
-    return v is not None and not is_unknown(v) and not isinstance(v, tuple)
+    return v is not None and not is_unknown(v) and not isinstance(v, (tuple, DictValue))
 
 
 # ------------------------------------------------------------------------------------------------------------------ R1
@@ -487,6 +495,12 @@ def _bytes_of(data):
     return None
 
 
+def _opaque_amount(v):
+    """a byte count that involves something the evaluator does not compute (an attribute of an object, the result of a call)"""
+    return not _rat(v) or any(d[0] == "fn" and (d[1].startswith("attr:") or (d[1].startswith("call:") and d[1] not in ("call:len", "call:int")))
+                              for d in C.walk_atoms(v))
+
+
 def r2_declared_sizes(ctx):
     tbs = T.tables(ctx)
     fn4, fn2 = tbs["fn"]["op4"], tbs["fn"]["op2"]
@@ -535,7 +549,9 @@ def r2_declared_sizes(ctx):
                         unresolved = {"format": txt or repr(vals[0]), "bytes": repr(nb)}
                         continue
                     size = T.numval(C.norm(size), tb)
-                    if not C.same(size, nb):
+                    if not C.same(size, nb) and _opaque_amount(nb):
+                        unresolved = {"format": txt, "bytes": repr(nb)}
+                    elif not C.same(size, nb):
                         ok, bad = False, {"format": txt.replace(T.ENDIAN, ""), "size of the format": repr(size), "bytes read": repr(nb), "keys": f"{bits}-bit",
                                           "binding": _leaf_label(path)}
             if unresolved is not None and ok:
@@ -1426,6 +1442,78 @@ def _guard_equiv(guard, want):
         return None
 
 
+def _decide_test(v):
+    """truth of a test on values that are known (text, None, numbers, literal sequences of those): True / False / None"""
+    def known(x):
+        return K.conc(x) if _rat(x) else K.NOT
+
+    def post(name, args):
+        if any(isinstance(a, str) for a in args):
+            return None
+        if name == "idx" and len(args) == 2 and args[1].is_const():
+            q = C.fn_parts(args[0])
+            k = args[1].const_value()
+            if q is not None and q[0] == "tuple" and k.denominator == 1 and -len(q[1]) <= k < len(q[1]):
+                return q[1][int(k)]
+        if name in ("cmp:Eq", "cmp:NotEq", "cmp:Is", "cmp:IsNot") and len(args) == 2:
+            neg = name in ("cmp:NotEq", "cmp:IsNot")
+            qa, qb = C.fn_parts(args[0]), C.fn_parts(args[1])
+            if qa is not None and qb is not None and qa[0] == qb[0] == "tuple":
+                if len(qa[1]) != len(qb[1]):
+                    return F.const(1 if neg else 0)
+                parts = [post("cmp:Eq", [x, y]) for x, y in zip(qa[1], qb[1])]
+                if any(x is not None and x.is_const() and x.is_zero() for x in parts):
+                    return F.const(1 if neg else 0)            # one pair of elements differs
+                if any(x is None for x in parts):
+                    return None
+                if all(x.is_const() for x in parts):
+                    return F.const(0 if neg else 1)
+                return None
+            x, y = known(args[0]), known(args[1])
+            if x is not K.NOT and y is not K.NOT:
+                return F.const(int((x == y) != neg))
+            if (x is None and y is K.NOT and (qb is not None and qb[0] == "tuple")) or (y is None and x is K.NOT and (qa is not None and qa[0] == "tuple")):
+                return F.const(1 if neg else 0)
+        if name == "not" and len(args) == 1:
+            x = known(args[0])
+            if x is not K.NOT:
+                return F.const(int(not x))
+        if name in ("bool:And", "bool:Or"):
+            xs = [known(a) for a in args]
+            if not any(x is K.NOT for x in xs):
+                return F.const(int(all(xs) if name == "bool:And" else any(xs)))
+        if name == "call:bool" and len(args) == 1 and known(args[0]) is not K.NOT:
+            return F.const(int(bool(known(args[0]))))
+        if name == "call:len" and len(args) == 1:
+            q = C.fn_parts(args[0])
+            if q is not None and q[0] == "tuple":
+                return F.const(len(q[1]))
+            if isinstance(known(args[0]), (str, bytes, tuple)):
+                return F.const(len(known(args[0])))
+        return None
+    if not _rat(v):
+        return None
+    out = C.rewrite(v, post=post)
+    x = known(out)
+    if x is not K.NOT:
+        return bool(x)
+    return C.truth_of(C.settle(out))
+
+
+def _continues_on(test, res):
+    """whether a loop over the results of a loader goes on after a matrix and stops at the end of the file: the test, as a function of the
+    latest result `res`, on (a name, X, form, type) and on (None, None, None, None) -> True (it does) / False (it does not) / None"""
+    if not _rat(test) or not _rat(res) or C.as_atom(res) is None:
+        return None
+    eof = F.fn("tuple", *[F.sym("None")] * 4)
+    real = F.fn("tuple", F.sym(repr("name")), F.sym("X"), F.sym("FORM"), F.sym("MTYPE"))
+    a = _decide_test(C.renamer([(res, real)])(test))
+    b = _decide_test(C.renamer([(res, eof)])(test))
+    if a is None or b is None:
+        return None
+    return a is True and b is False
+
+
 def r5_listing_equals_read(ctx):
     normalisers = {}
     for loader, skipper in (("_loadop4_ascii", "self._skipop4_ascii"), ("_loadop4_binary", "self._skipop4_binary")):
@@ -1495,20 +1583,28 @@ def r5_listing_equals_read(ctx):
             inloop = [e for e in calls if e[7].equals(lp.frame)]
             before = [e for e in calls if e[7].equals(w.top.id)]
             ok = len(inloop) == 1 and len(before) == len(calls) - 1
+            undecided = None
             if ok:
                 e = inloop[0]
-                # the loop goes on exactly while the name reported by the latest call of the loader is not empty / None
-                nm = F.fn("idx", e[8], F.const(0)) if _rat(e[8]) else None
-                ps = _lv_in(lp.test, lp.frame)
-                upd = [v for p_, v in lp.carry if len(ps) == 1 and p_.equals(ps[0])]
-                ok = nm is not None and len(ps) == 1 and C.same(lp.test, ps[0]) and len(upd) == 1 and C.same(upd[0], nm)
-                if ok and before:
+                # the loop goes on exactly while the latest call of the loader reports a matrix: its test - whatever it looks at: the name,
+                # the whole result - is false on the end-of-file result (None, None, None, None) and true on (a name, X, form, type)
+                nxt = C.renamer([(p_, v) for p_, v in lp.carry if _rat(v)])(lp.test) if _rat(lp.test) else None
+                t = _continues_on(nxt, e[8])
+                if before:
                     # a loop tested at its top: the first call is made before it, with the same arguments
                     b = before[0]
-                    ok = _rat(b[8]) and C.same(lp.entry_test(), F.fn("idx", b[8], F.const(0))) and len(b[2]) == len(e[2]) \
-                        and all(C.same(x, y) for x, y in zip(b[2], e[2])) and set(b[3]) == set(e[3]) and all(C.same(b[3][k], e[3][k]) for k in e[3])
-                elif ok:
+                    ok = len(b[2]) == len(e[2]) and all(C.same(x, y) for x, y in zip(b[2], e[2])) and set(b[3]) == set(e[3]) \
+                        and all(C.same(b[3][k], e[3][k]) for k in e[3])
+                    t0 = _continues_on(lp.entry_test(), b[8])
+                else:
                     ok = lp.forced
+                    t0 = True
+                if ok and (t is None or t0 is None):
+                    undecided = {"loop test": repr(C.norm(lp.test, whole_values=False))[:300]}
+                ok = ok and t is True and t0 is True
+            if undecided is not None:
+                ctx.error(f"{q}: the test of the loop over the matrices of the file cannot be decided on an end-of-file result and on a matrix", w.fn, undecided)
+                continue
             if ok and q == "dir":
                 ok = all(_rat(e[3].get("listonly")) and (C.sym_name(e[3]["listonly"]) == "True" or e[3]["listonly"].equals(F.const(1))) for e in calls)
         ctx.check(ok, f"{q}: iterates the same loader (ascii or binary by the detected format) until it reports end of file", w.fn)
